@@ -7,6 +7,11 @@ import PPLV.Lattice.ProofsGridOpsCon18
 import PPLV.Lattice.ProofsGridOpsLazy12
 import PPLV.Lattice.ProofsGridOpsGen15
 import PPLV.Lattice.ProofsGridOpsGen16
+import PPLV.Lattice.ProofsGridOpsLazy16
+import PPLV.Lattice.ProofsGridOpsCon20
+import PPLV.Lattice.ProofsGridOpsCon25
+import PPLV.Lattice.ProofsGridOpsCon26
+import PPLV.Lattice.ProofsGridOpsGen32
 
 /-!
 # C05, stage 3 — the `Grid` class itself: lazy status machinery, mutators and observers on the raw object
@@ -156,6 +161,9 @@ inductive Op where
   | upperBoundAssign (y : Grid)
   | timeElapseAssign (y : Grid)
   | addSpaceDimensionsAndEmbed (m : Nat)
+  | affineImage (v : Nat) (e : LinExpr) (den : Int)
+  | affinePreimage (v : Nat) (e : LinExpr) (den : Int)
+  | removeSpaceDimensions (vars : List Nat)
   | unconstrainVar (v : Nat)
   | unconstrainSet (vars : List Nat)
   | addGridGenerator (x : GRow)
@@ -181,6 +189,9 @@ def Op.run : Op → Grid → Grid
   | .upperBoundAssign y, g => (GO.upperBoundAssign g y).x
   | .timeElapseAssign y, g => (GO.timeElapseAssign g y).x
   | .addSpaceDimensionsAndEmbed m, g => GO.addSpaceDimensionsAndEmbed g m
+  | .affineImage v e den, g => (GO.affineImage g v e den).g
+  | .affinePreimage v e den, g => (GO.affinePreimage g v e den).g
+  | .removeSpaceDimensions vars, g => (GO.removeSpaceDimensions g vars).g
   | .unconstrainVar v, g => (GO.unconstrainVar g v).g
   | .unconstrainSet vs, g => (GO.unconstrainSet g vs).g
   | .addGridGenerator x, g => (GO.addGridGenerator g x).g
@@ -208,6 +219,9 @@ def Op.pre : Op → Grid → Prop
   | .upperBoundAssign y, g => GridInv y ∧ g.spaceDim = y.spaceDim
   | .timeElapseAssign y, g => GridInv y ∧ g.spaceDim = y.spaceDim
   | .addSpaceDimensionsAndEmbed m, g => 0 < m ∧ (g.st.empty = true ∨ (0 < g.spaceDim ∧ g.st.cUp = true ∧ g.st.gUp = false))
+  | .affineImage v e den, g => den ≠ 0 ∧ e.spaceDim ≤ g.spaceDim ∧ v + 1 ≤ g.spaceDim
+  | .affinePreimage v e den, g => den ≠ 0 ∧ e.spaceDim ≤ g.spaceDim ∧ v + 1 ≤ g.spaceDim
+  | .removeSpaceDimensions vars, g => vars.Pairwise (· < ·) ∧ ∀ v ∈ vars, v < g.spaceDim
   | .unconstrainVar v, g => v < g.spaceDim
   | .unconstrainSet vs, g => ∀ v ∈ vs, v < g.spaceDim
   | .addGridGenerator x, g => gn_RowOK x ∧ x.spaceDim ≤ g.spaceDim ∧ 0 < g.spaceDim ∧ (g.sem = ∅ → gn_isPt x = true)
@@ -217,6 +231,7 @@ def Op.dim : Op → Nat → Nat
   | .concatenateAssign y, n => n + y.spaceDim
   | .assign y, _ => y.spaceDim
   | .addSpaceDimensionsAndEmbed m, n => n + m
+  | .removeSpaceDimensions vars, n => n - vars.length
   | _, n => n
 
 /-- **the reference**: the documented set transformer, as a relation between the set denoted before and after
@@ -241,6 +256,9 @@ def Op.post : Op → Nat → Set Pt → Set Pt → Prop
   | .upperBoundAssign y, _, S, S' => gn_IsJoin S' S y.sem
   | .timeElapseAssign y, _, S, S' => gn_IsTE S' S y.sem
   | .addSpaceDimensionsAndEmbed m, n, S, S' => S' = cn_embedSet n m S
+  | .affineImage v e den, _, S, S' => S' = lzF v e den '' S
+  | .affinePreimage v e den, n, S, S' => S' = cn_preSet n v e den S
+  | .removeSpaceDimensions vars, n, S, S' => S' = cn_sel n vars '' S
   | .unconstrainVar v, _, S, S' => S' = {y | ∃ x ∈ S, ∃ c : ℚ, y = x + c • (unit v).toFun}
   | .unconstrainSet vs, _, S, S' => S' = gn_cyl S vs
   | .addGridGenerator x, _, S, S' =>
@@ -356,6 +374,37 @@ theorem op_step (op : Op) (g : Grid) (hI : GridInv g) (hp : op.pre g) :
         · have := (hI.emp hemp).1
           rw [this] at hc; cases hc
       exact cn_embed_con_full g m hI hm he hpos hc hg
+  | affineImage v e den =>
+    obtain ⟨hden, hed, hv⟩ := hp
+    cases hemp : g.st.empty
+    · obtain ⟨_, a, b, c⟩ := affineImage_full g v e den hI hemp hden hed hv
+      exact ⟨a, b, c⟩
+    · have hU : (GO.affineImage g v e den).g = g := (affineImage_thrown g v e den).2.2 hemp
+      refine ⟨?_, ?_, ?_⟩
+      · show GridInv (GO.affineImage g v e den).g
+        rw [hU]; exact hI
+      · show (GO.affineImage g v e den).g.sem = lzF v e den '' g.sem
+        rw [hU, cn_sem_empty g hemp, Set.image_empty]
+      · show (GO.affineImage g v e den).g.spaceDim = g.spaceDim
+        rw [hU]
+  | affinePreimage v e den =>
+    obtain ⟨hden, hed, hv⟩ := hp
+    cases hemp : g.st.empty
+    · obtain ⟨_, a, b, c⟩ := affinePreimage_full g v e den hI hemp hden hed hv
+      exact ⟨a, b, c⟩
+    · have hU : (GO.affinePreimage g v e den).g = g := (cn_affinePreimage_thrown g v e den).2.2 hemp
+      refine ⟨?_, ?_, ?_⟩
+      · show GridInv (GO.affinePreimage g v e den).g
+        rw [hU]; exact hI
+      · show (GO.affinePreimage g v e den).g.sem = cn_preSet g.spaceDim v e den g.sem
+        rw [hU, cn_sem_empty g hemp]
+        ext x; simp [cn_preSet]
+      · show (GO.affinePreimage g v e den).g.spaceDim = g.spaceDim
+        rw [hU]
+  | removeSpaceDimensions vars =>
+    obtain ⟨hinc, hlt⟩ := hp
+    obtain ⟨_, a, b, c⟩ := cn_removeSpaceDimensions g vars hI hinc hlt
+    exact ⟨a, c, b⟩
   | unconstrainVar v =>
     obtain ⟨a, _, c, d⟩ := gn_unconstrainVar hEG g hI v hp
     exact ⟨a, d, c⟩
@@ -478,7 +527,7 @@ theorem affine_preimage_rejects (g : Grid) (v : Nat) (e : LinExpr) (den : Int) :
 /-- the non-invertible path (`minimize()` if the congruences are not up to date, then `Congruence_System::affine_preimage`)
     and the invertible path on a grid whose generators are not up to date: the result denotes the preimage
     `{x | x[v := (⟨e,x⟩ + e₀)/den] ∈ G}` -/
-theorem affine_preimage_correct (g : Grid) (v : Nat) (e : LinExpr) (den : Int) (hI : GridInv g)
+theorem affine_preimage_correct_congruence_paths (g : Grid) (v : Nat) (e : LinExpr) (den : Int) (hI : GridInv g)
     (hne : g.st.empty = false) (hden : den ≠ 0) (hed : e.spaceDim ≤ g.spaceDim) (hv : v + 1 ≤ g.spaceDim)
     (hpath : ¬ (v + 1 ≤ e.spaceDim ∧ e.coeff v ≠ 0) ∨ g.st.gUp = false) :
     (affinePreimage g v e den).thrown = false ∧ GridInv (affinePreimage g v e den).g ∧
@@ -490,16 +539,44 @@ theorem affine_preimage_correct (g : Grid) (v : Nat) (e : LinExpr) (den : Int) (
     · exact cn_affinePreimage_inv_con g v e den hI hne hden hed hv hinv h
   · exact cn_affinePreimage_noninv minimize_spec g v e den hI hne hden hed hv hinv
 
-/-- `affine_preimage_partial`: every path.  MISSING: on the invertible path with up-to-date generators the rows are
-    transformed by `Grid_Generator_System::affine_image` with the inverse map; that this keeps the rows well formed with a
-    common divisor and yields the preimage (`cn_GenAffineImageInvSpec`, a statement about `GSys.affineImage` only) is not
-    proved — the driver checks it on every such real event (`inv`, `sem`). -/
-theorem affine_preimage_partial (hGen : cn_GenAffineImageInvSpec) (g : Grid) (v : Nat) (e : LinExpr) (den : Int)
+/-- every path, the invertible one with up-to-date generators included (`Grid_Generator_System::affine_image` with the
+    inverse map: `genAffineImageInv_spec`) -/
+theorem affine_preimage_full (g : Grid) (v : Nat) (e : LinExpr) (den : Int)
     (hI : GridInv g) (hne : g.st.empty = false) (hden : den ≠ 0) (hed : e.spaceDim ≤ g.spaceDim) (hv : v + 1 ≤ g.spaceDim) :
     (affinePreimage g v e den).thrown = false ∧ GridInv (affinePreimage g v e den).g ∧
       (affinePreimage g v e den).g.sem = cn_preSet g.spaceDim v e den g.sem ∧
-      (affinePreimage g v e den).g.spaceDim = g.spaceDim :=
-  cn_affinePreimage_partial minimize_spec hGen g v e den hI hne hden hed hv
+      (affinePreimage g v e den).g.spaceDim = g.spaceDim := affinePreimage_full g v e den hI hne hden hed hv
+
+/-- `affine_image(var, expr, denominator)` (Grid_public.cc:1932): rejects exactly `denominator = 0` and dimension
+    mismatches (nothing changes then, nor on a marked-empty receiver); otherwise the image under
+    `x ↦ x[v := (⟨e,x⟩ + e₀)/den]`, on the invertible and the non-invertible path -/
+theorem affine_image_rejects (g : Grid) (v : Nat) (e : LinExpr) (den : Int) :
+    ((affineImage g v e den).thrown = true ↔ (den = 0 ∨ g.spaceDim < e.spaceDim ∨ g.spaceDim < v + 1)) ∧
+    ((affineImage g v e den).thrown = true → (affineImage g v e den).g = g) ∧
+    (g.st.empty = true → (affineImage g v e den).g = g) := affineImage_thrown g v e den
+
+theorem affine_image_correct (g : Grid) (v : Nat) (e : LinExpr) (den : Int) (hI : GridInv g) (hne : g.st.empty = false)
+    (hden : den ≠ 0) (hed : e.spaceDim ≤ g.spaceDim) (hv : v + 1 ≤ g.spaceDim) :
+    (affineImage g v e den).thrown = false ∧ GridInv (affineImage g v e den).g ∧
+      (affineImage g v e den).g.sem = lzF v e den '' g.sem ∧ (affineImage g v e den).g.spaceDim = g.spaceDim :=
+  affineImage_full g v e den hI hne hden hed hv
+
+/-- `generalized_affine_image(var, EQUAL, expr, denominator, modulus)` (Grid_public.cc:2107): the affine image, and for
+    `modulus ≠ 0` all its translates by integer multiples of `|modulus|·e_var`; the other relation symbols (modulus 0) add
+    the line of `var` -/
+theorem generalized_affine_image_var_equal (g : Grid) (v : Nat) (e : LinExpr) (den modulus : Int) (hI : GridInv g)
+    (hne : g.st.empty = false) (hden : den ≠ 0) (hed : e.spaceDim ≤ g.spaceDim) (hv : v + 1 ≤ g.spaceDim) :
+    (generalizedAffineImageVar g v EQUAL e den modulus).thrown = false ∧
+    GridInv (generalizedAffineImageVar g v EQUAL e den modulus).g ∧
+    (generalizedAffineImageVar g v EQUAL e den modulus).g.spaceDim = g.spaceDim ∧
+    (modulus = 0 → (generalizedAffineImageVar g v EQUAL e den modulus).g.sem = lzF v e den '' g.sem) ∧
+    (modulus ≠ 0 → (generalizedAffineImageVar g v EQUAL e den modulus).g.sem =
+      {y | ∃ a ∈ lzF v e den '' g.sem, ∃ k : Int, y = a + (k : ℚ) • (fun i => if i = v then ((absI modulus : Int) : ℚ) else 0)}) :=
+  generalizedAffineImageVar_equal g v e den modulus hI hne hden hed hv
+
+theorem relsym_line_correct (g : Grid) (v : Nat) (hI : GridInv g) (hv : v + 1 ≤ g.spaceDim) :
+    (relsymLine g v).thrown = false ∧ GridInv (relsymLine g v).g ∧ (relsymLine g v).g.spaceDim = g.spaceDim ∧
+    (relsymLine g v).g.sem = {y | ∃ a ∈ g.sem, ∃ c : ℚ, y = a + c • (unit v).toFun} := relsymLine_spec g v hI hv
 
 /-- `x₀ := x₀ + 1` read backwards on `x ≡ 0 (mod 2)` (invertible, congruences only) -/
 example : (affinePreimage cn_exGrid 0 [1, 1] 1).g.con = [{ e := [1, 1], m := 2 }] := by decide
@@ -559,15 +636,102 @@ theorem is_included_in_correct (x y : Grid) (hx : GridInv x) (hy : GridInv y) (h
 example : cn_exGrid.st.empty = false ∧ cn_exGrid3.st.empty = false ∧ 0 < cn_exGrid.spaceDim ∧
     (isIncludedIn cn_exGrid cn_exGrid3).2.2 = false := ⟨rfl, rfl, by decide, by decide +kernel⟩
 
-/-- `contains_partial`: `contains(y)` answers `y ⊆ x`.  MISSING: the soundness of `quick_equivalence_test` (`TVB_TRUE` ⇒
-    equal grids: uniqueness of the minimized forms compared syntactically), `gn_QuickTrueSound`; the driver compares every
-    real answer of `contains` / `quick_equivalence_test` with the K2 decider. -/
-theorem contains_partial (hQ : gn_QuickTrueSound) (x y : Grid) (hx : GridInv x) (hy : GridInv y) (hd : x.spaceDim = y.spaceDim) :
+/-- `quick_equivalence_test`: `TVB_TRUE` is sound (both sources: syntactically equal minimized line-free generators,
+    syntactically equal minimized equality-free congruences) -/
+theorem quick_equivalence_test_true_sound : gn_QuickTrueSound := gn_quickTrueSound
+
+/-- `contains(y)` (Grid_public.cc:2808): both objects keep invariant and set, the answer is `y ⊆ x` -/
+theorem contains_correct (x y : Grid) (hx : GridInv x) (hy : GridInv y) (hd : x.spaceDim = y.spaceDim) :
     GridInv (GO.contains x y).1 ∧ GridInv (GO.contains x y).2.1 ∧ (GO.contains x y).1.sem = x.sem ∧
     (GO.contains x y).2.1.sem = y.sem ∧ ∃ b, (GO.contains x y).2.2 = some b ∧ (b = true ↔ y.sem ⊆ x.sem) := by
-  obtain ⟨a, b, c, d, _, _, g⟩ := gn_contains_partial updateGenerators_spec updateCongruences_spec isEmpty_spec hQ x y hx hy hd
+  obtain ⟨a, b, c, d, _, _, g⟩ := gn_contains x y hx hy hd
   exact ⟨a, b, c, d, g⟩
 
+/-- `operator==`, `equals_partial`.  MISSING: the soundness of the `TVB_FALSE` answers of `quick_equivalence_test` on
+    these two operands (different row counts / numbers of equalities / numbers of lines, or syntactically different
+    minimized systems ⇒ different grids), i.e. uniqueness of the STRONG minimal form.  With `GridInv` as it stands that is
+    false (`quick_false_needs_reduced_form` below): the invariant records the triangular form, not the reduction of the
+    entries above the pivots that `simplify` / `conversion` also establish.  The driver compares every real answer of
+    `operator==` and `quick_equivalence_test` with the K2 decider. -/
+theorem equals_partial (x y : Grid) (hx : GridInv x) (hy : GridInv y) (hd : x.spaceDim = y.spaceDim)
+    (hF : quickEquivalenceTest x y = TVB_FALSE → x.sem ≠ y.sem) :
+    GridInv (GO.equals x y).1 ∧ GridInv (GO.equals x y).2.1 ∧ (GO.equals x y).1.sem = x.sem ∧ (GO.equals x y).2.1.sem = y.sem ∧
+    ((GO.equals x y).2.2 = true ↔ x.sem = y.sem) := by
+  obtain ⟨a, b, c, d, _, _, g⟩ := gn_equals_partial x y hx hy hd hF
+  exact ⟨a, b, c, d, g⟩
+
+/-- two raw states satisfying `GridInv` with minimized generators, both denoting `ℤ²`, on which the quick test answers
+    `TVB_FALSE` (the second one is triangular but not reduced; the library never builds it) -/
+theorem quick_false_needs_reduced_form : ¬ gn_QuickFalseSound := gn_quickFalseSound_fails
+
+/-- `relation_with(const Grid_Generator&)` (Grid_public.cc:578): `subsumes` exactly when the point lies in the grid, resp.
+    the grid is non-empty and closed under the integer (parameter) / rational (line) multiples of the direction -/
+theorem relation_with_generator_correct (g : Grid) (hI : GridInv g) (x : GRow) (hx : gn_RowOK x) (hd : x.spaceDim ≤ g.spaceDim) :
+    GridInv (relationWithGen g x).1 ∧ (relationWithGen g x).1.sem = g.sem ∧
+    ∃ b, (relationWithGen g x).2 = some b ∧ (b = true ↔ gn_Subsumes g.sem x) := by
+  obtain ⟨a, b, _, c⟩ := gn_relationWithGen g hI x hx hd
+  exact ⟨a, b, c⟩
+
+/-- `relation_with(const Congruence&)` (Grid_public.cc:390, the whole gcd bookkeeping of the loop): is_disjoint ↔ empty
+    intersection, is_included ↔ inclusion, strictly_intersects ↔ neither, saturates ⇒ included (and, on a non-empty grid of
+    dimension > 0, saturates ↔ included ∧ equality) -/
+theorem relation_with_congruence_correct (g : Grid) (hI : GridInv g) (cg : CRow) (hd : cg.spaceDim ≤ g.spaceDim) (hm : 0 ≤ cg.m) :
+    GridInv (relationWithCg g cg).1 ∧ (relationWithCg g cg).1.sem = g.sem ∧
+    ∃ rel, (relationWithCg g cg).2 = some rel ∧ gn_RelOK rel g.sem (CRow.set cg) ∧
+      (0 < g.spaceDim → g.sem.Nonempty → (rel.saturates = true ↔ rel.included = true ∧ cg.isEquality = true)) := by
+  obtain ⟨a, b, _, c⟩ := gn_relationWithCg g hI cg hd hm
+  exact ⟨a, b, c⟩
+
+/-- `relation_with(const Constraint&)`, equalities: as a congruence -/
+theorem relation_with_constraint_equality_correct (g : Grid) (hI : GridInv g) (c : Con) (hd : c.spaceDim ≤ g.spaceDim)
+    (hk : c.isEquality = true) :
+    GridInv (relationWithCon g c).1 ∧ (relationWithCon g c).1.sem = g.sem ∧
+    ∃ rel, (relationWithCon g c).2 = some rel ∧ gn_RelOK rel g.sem (cn_conSet c) := by
+  obtain ⟨a, b, _, rel, e, ok, _⟩ := gn_relationWithCon_equality g hI c hd hk
+  exact ⟨a, b, rel, e, ok⟩
+
+/-- `relation_with(const Constraint&)`, inequalities (repaired code), on up-to-date generators with ONE point row: the
+    object is untouched and the four answers are those of the denoted set.  With several point rows the `const` function
+    rewrites the later points into parameters (KF-C05-16, open): not covered. -/
+theorem relation_with_constraint_inequality_one_point (g : Grid) (hI : GridInv g) (c : Con) (hd : c.spaceDim ≤ g.spaceDim)
+    (hk : c.isEquality = false) (hn : 0 < g.spaceDim) (he : g.st.empty = false) (hg : g.st.gUp = true)
+    (hone : (g.gen.filter gn_isPt).length = 1) :
+    (relationWithCon g c).1 = g ∧ ∃ rel, (relationWithCon g c).2 = some rel ∧ gn_ConRelOK rel g.sem c :=
+  gn_relationWithCon_ineq_gUp g hI c hd hk hn he hg hone
+
+/-- `bounds_from_above/below` (Grid_nonpublic.cc:288): `true` exactly when the expression is constant on the grid -/
+theorem bounds_correct (g : Grid) (e : LinExpr) (hI : GridInv g) :
+    ((bounds g e).2 = none ↔ g.spaceDim < e.spaceDim) ∧ GridInv (bounds g e).1 ∧ (bounds g e).1.sem = g.sem ∧
+    (∀ b, (bounds g e).2 = some b → (b = true ↔ cn_Const e g.sem)) := by
+  obtain ⟨a, b, c, _, d⟩ := cn_bounds g e hI
+  exact ⟨a, b, c, d⟩
+
+/-- `maximize` / `minimize` (`max_min`, Grid_nonpublic.cc:423): succeeds exactly on a non-empty grid on which the expression
+    is constant, and then returns that value as a reduced fraction with positive denominator -/
+theorem max_min_correct (g : Grid) (e : LinExpr) (hI : GridInv g) :
+    ((maxMin g e).2 = none ↔ g.spaceDim < e.spaceDim) ∧ GridInv (maxMin g e).1 ∧ (maxMin g e).1.sem = g.sem ∧
+    (∀ mm, (maxMin g e).2 = some mm →
+      (mm.ok = true ↔ g.sem.Nonempty ∧ cn_Const e g.sem) ∧
+      (mm.ok = true → 0 < mm.den ∧ Int.gcd mm.num mm.den = 1 ∧ mm.included = true ∧
+        ∀ x ∈ g.sem, evalRow e x = (mm.num : ℚ) / (mm.den : ℚ))) := by
+  obtain ⟨a, b, c, _, d⟩ := cn_maxMin g e hI
+  exact ⟨a, b, c, d⟩
+
+/-- `frequency` (Grid_public.cc:2745, `frequency_no_check`): fails exactly on the empty grid or when a line moves the
+    expression; otherwise (`cn_FreqOK`) `fn/fd ≥ 0` reduced generates the differences of the values and is itself a
+    difference, `vn/vd` reduced is a value attained on the grid with `|2·val| ≤ freq` -/
+theorem frequency_correct (g : Grid) (e : LinExpr) (hI : GridInv g) :
+    ((frequency g e).2 = none ↔ g.spaceDim < e.spaceDim) ∧ GridInv (frequency g e).1 ∧ (frequency g e).1.sem = g.sem ∧
+    (∀ fr, (frequency g e).2 = some fr →
+      (fr.ok = false ↔ g.sem = ∅ ∨ cn_LineMoves e g.sem) ∧ (fr.ok = true → cn_FreqOK e g.sem fr)) := by
+  obtain ⟨a, b, c, _, d⟩ := cn_frequency g e hI
+  exact ⟨a, b, c, d⟩
+
+/-- `is_discrete()`: `true` exactly when the grid contains no rational line -/
+theorem is_discrete_correct (g : Grid) (hI : GridInv g) :
+    GridInv (isDiscrete g).1 ∧ (isDiscrete g).1.sem = g.sem ∧ ((isDiscrete g).2 = true ↔ ¬ cn_HasLine g.sem) := by
+  obtain ⟨a, b, _, c⟩ := cn_isDiscrete g hI
+  exact ⟨a, b, c⟩
 
 /-! ## clauses the unchanged code violates (open findings)
 
